@@ -462,3 +462,18 @@ def duplicate_declare(O):
                 extra=[rt == bv64(0)])
     if nok == 0:
         O.inconclusive("vacuous: declare is never accepted")
+
+
+def _reg_literal_token(kind):
+    @obligation("C12/literal-is-one-token[%s]" % kind, profiles=("dev",),
+                desc="the generated lexer, executed from MIR over symbolic bytes: a source consisting of one %s literal of any "
+                     "length up to well beyond 64 bits is exactly one token - an over-long literal reaches the overflow check of "
+                     "parse_number whole instead of being split into acceptable pieces" % kind)
+    def _ob(O, kind=kind):
+        from . import lexing
+        lexing.literal_is_one_token(O, kind, rep())
+    return _ob
+
+
+for _k in ("DecInt", "HexInt", "OctInt", "BinInt"):
+    _reg_literal_token(_k)
